@@ -26,7 +26,7 @@ def gates(tier):
     return {
         "min_decided": {APIS[0]: 800 * k, APIS[1]: 4000 * k, APIS[2]: 4000 * k},
         "shapes": {c: 3 * k for c in ["recursive", "nonlinear_scc", "eps_rule", "unary_cycle", "non_generating_symbol",
-                                      "sr:Boolean", "sr:MaxTimes", "sr:Real", "eos:inner", "eos:double", "eos:none", "eos:double-wrap", "scale:big-grammar"]},
+                                      "sr:Boolean", "sr:MaxTimes", "sr:Real", "eos:inner", "eos:double", "eos:none", "eos:double-wrap", "scale:big-grammar"]} | {"scale:many-heads-slow-block": k},
         "min_hashseeds": 2,
     }
 
@@ -34,6 +34,8 @@ def gates(tier):
 def gen_case(rng, spec):
     from rv.gen import grammars as GG
 
+    if rng.random() < 0.006:
+        return many_heads_gadget(rng)
     if rng.random() < 0.05:
         # scale: 10-16 nonterminals, 6-10 terminals, a head with 8-12 alternatives; sampled members up to 12 tokens
         bg = GG.gen_big_grammar(rng)
@@ -57,7 +59,64 @@ def gen_case(rng, spec):
     return {"g": {k: g[k] for k in ("S", "V", "rules")}, "maxlen": maxlen, "R2": rng.choice(["Float", "Boolean", "MaxTimes", "Real"])}
 
 
+def many_heads_gadget(rng):
+    """scale: 100-220 nonterminals (one per command of a command language) plus one slowly converging argument list
+    (continuation probability 0.98-0.99, a few thousand fixed-point updates): the totals of slow blocks must not depend
+    on how many other nonterminals the grammar has."""
+    from fractions import Fraction as Fr
+
+    return {"gadget": "many-heads", "n": rng.randint(100, 220), "q": rng.choice([Fr(98, 100), Fr(985, 1000), Fr(99, 100)]),
+            "r": rng.choice([Fr(1), Fr(1, 2), Fr(3)]), "order": rng.randrange(1 << 30)}
+
+
+def run_gadget(case, ctx):
+    import random as _random
+    from fractions import Fraction as Fr
+
+    from genlm.grammar import locally_normalize
+
+    from rv import codec, core, lib
+    from rv.core import close2
+
+    n, q, r = case["n"], case["q"], case["r"]
+    rules = [[q, "ARGS", ["a", "ARGS"]], [(1 - q) * r, "ARGS", ["a"]]]
+    for i in range(n):
+        rules.append([Fr(1 + i % 3, 4), "S", [f"C{i}"]])
+        rules.append([Fr(1, 2), f"C{i}", [f"t{i % 5}", "ARGS"]])
+        rules.append([Fr(1, 4), f"C{i}", [f"t{i % 5}"]])
+    _random.Random(case["order"]).shuffle(rules)
+    g = {"S": "S", "V": ["a"] + [f"t{k}" for k in range(5)], "rules": rules}
+    # closed form: Z[ARGS] = r, Z[C_i] = r/2 + 1/4, Z[S] = sum_i w_i Z[C_i]
+    ZA, ZC = r, r / 2 + Fr(1, 4)
+    ctx.case(codec.fingerprint(case), True, ["scale:many-heads-slow-block", "recursive"])
+    ctx.sample({"case": case})
+    with core.default_recursion_budget(ctx):
+        ok, cfg = ctx.call(APIS[0], case, lib.build_cfg, g, "Float")
+        if not ok:
+            return
+        ok, nz = ctx.call(APIS[0], case, locally_normalize, cfg)
+        if not ok:
+            return
+        sums, wmap = {}, {}
+        for rr in nz.rules:
+            sums[rr.head] = sums.get(rr.head, 0) + rr.w
+            wmap[(rr.head, tuple(rr.body))] = wmap.get((rr.head, tuple(rr.body)), 0) + rr.w
+        for h in ["S", "ARGS"] + [f"C{i}" for i in range(0, n, 7)]:
+            good = h in sums and close2(sums[h], 1.0, 1e-7, 1e-9)
+            ctx.check(APIS[0], good, "locally_normalize/head-sum-not-one", dict(case, head=h), {"head": h, "sum": sums.get(h)})
+        # the proportional weights themselves: ARGS -> a ARGS keeps q, ARGS -> a gets 1-q, C_i -> t ARGS gets (r/2)/Z[C]
+        for key, want in ((("ARGS", ("a", "ARGS")), q), (("ARGS", ("a",)), 1 - q), (("C0", ("t0", "ARGS")), (ZA / 2) / ZC)):
+            have = wmap.get(key)
+            ctx.check(APIS[0], have is not None and close2(have, float(want), 1e-7, 1e-10), "locally_normalize/rule-weight-not-proportional",
+                      dict(case, rule=[key[0], list(key[1])]), {"rule": [key[0], list(key[1])], "have": have, "want": float(want)})
+        ok2, t = ctx.call(APIS[1], case, nz.treesum)
+        if ok2:
+            ctx.check(APIS[1], close2(t, 1.0, 1e-7, 1e-9), "locally_normalize/treesum-not-one", case, {"treesum": t})
+
+
 def run_case(case, ctx):
+    if case.get("gadget") == "many-heads":
+        return run_gadget(case, ctx)
     from genlm.grammar import add_EOS, locally_normalize
 
     from rv import codec, lib
